@@ -70,7 +70,7 @@ def make_case(i, rng, tier):
         vs = []
         for idx in leaves:
             it = o.items[idx]
-            vals = F.outside_values(it[2], None, far=False)[:6] + F.outside_values(it[2], rng)[-2:]
+            vals = F.outside_values(it[2], None, far=False)[:6] + F.outside_values(it[2], rng)[-2:] + F.neighbour_values(o, idx)[:4]
             for val in dict.fromkeys(vals):
                 f = F.fault_value(inp["data"], o, rng, idx=idx, value=val)
                 if f:
